@@ -136,7 +136,8 @@ def main():
         cases.append({"id": len(cases) + 1, "outcome": outcome, "expect": exp, "situation": sit})
         meta.append((src, pl["opts"], r.get("msg", "")))
     # ---- command line: file names, configuration files ----
-    names = ["a", "A1", "a_b", "a-b", "-a", "a-", "_", "1", "a.b", "my-prog.v2", "x y", "prog", "Z_9", "a--b", "ab-"]
+    names = ["a", "A1", "a_b", "a-b", "-a", "a-", "_", "1", "a.b", "my-prog.v2", "x y", "prog", "Z_9", "a--b", "ab-",
+             "ecb_cls", "ecb_str", "_ecb_start", "_ecb_text_address", "ecb_play", "_ecb_width", "ECB_CLS", "program"]
     if thorough:
         alpha = "aZ0_-"
         names += ["".join(p) for k in (1, 2, 3) for p in itertools.product(alpha, repeat=k)]
